@@ -6,9 +6,9 @@
    loop of the next one: they are elements of its [ds].  That the real clients carry no other state
    from one query to the next (the reusable receive buffer is re-sized and cut to the received
    length) is what the netlab history stream checks against this function. *)
-From RsdnsModel Require Import Base RecordSet Client Timed.
+From RsdnsModel Require Import Base GenTypes RecordSet Client Timed TimedApi.
 From RsdnsModel.Spec Require Import Retry.
-From RsdnsModel.Proofs Require Import ClientProofs TimedProofs.
+From RsdnsModel.Proofs Require Import ClientProofs TimedProofs TimedGeneral TimedTyped.
 Open Scope N_scope.
 Theorem C16_leftovers_ignored : forall std id qname qtype qclass pre post junk,
   Forall (fun x => accept_datagram std id qname qtype qclass x = Ok None) junk ->
@@ -83,3 +83,38 @@ Example C16_history_example :
        ([2000], Ok (ex_resp x12 x35 "b", 33152), 2100);
        ([3000; 3300], Err Timeout, 3500) ]) /\ sorted_from 0 ex_queue.
 Proof. split; [intros [|]; vm_compute; reflexivity|cbn; lia]. Qed.
+
+(* HISTORIES IN EVERY WORLD: timers up to eps late, CPU time up to eps per datagram, any arrivals in
+   any order.  Every query of every history on the shared socket ends by its own start + lifetime +
+   eps — with a datagram the filter accepts FOR THIS QUERY (its id and question: never a leftover of
+   another query, whatever earlier queries left in the queue) or with Timeout — and its transmissions
+   start at its own start and are spaced by the query timeout, as on a fresh client *)
+Theorem C16_history_with_slack : forall std smol lifetime qt jit proc eps,
+  (forall x, jit x <= eps) -> (forall x, proc x <= eps) -> qt_pos qt -> 0 < lifetime ->
+  forall qs queue,
+  Forall2 (fun q o => let '(s, r, t) := o in
+             tq_start q <= t /\ t <= tq_start q + lifetime + eps /\
+             match r with Ok (d, fl) => filter_of std q d = Ok (Some fl) | Err e => e = Timeout | _ => False end /\
+             exists s', s = tq_start q :: s' /\ gaps (tq_start q) lifetime qt eps (tq_start q) s')
+          qs (udp_history std smol lifetime qt jit proc qs queue).
+Proof. exact history_with_slack. Qed.
+
+(* THE TYPED QUERY AS A WHOLE (TimedApi.v: client_rrset_timed = ClientImpl::query_rrset::<D>), in every
+   world: with a configured buffer size and a data class it returns exactly what record-set
+   extraction yields on the bytes the raw query returns for the same exchange — the raw query for
+   D's type into a buffer of exactly the configured size — with the same traffic at the same
+   instants, and the raw query's error as it is; without a buffer size (BadParam) or for a class that
+   is not a data class (UnsupportedClass) it is refused before anything is sent *)
+Theorem C16_typed_is_extraction_of_raw : forall std smol q cfg jit proc bs arrs srv,
+  0 < bs -> class_is_data (tq_class q) = true ->
+  client_rrset_timed std smol q cfg jit proc bs arrs srv =
+  match client_call_timed std smol q cfg jit proc bs arrs srv with
+  | (wire, ev, Ok d, t) => (wire, ev, from_msg d (tq_type q), t)
+  | (wire, ev, r, t) => (wire, ev, retype r Panic, t)
+  end.
+Proof. exact rrset_is_extraction_of_raw. Qed.
+Theorem C16_typed_refused_sends_nothing : forall std smol q cfg jit proc bs arrs srv,
+  bs = 0 \/ class_is_data (tq_class q) = false ->
+  exists e, client_rrset_timed std smol q cfg jit proc bs arrs srv = (([], None), [], Err e, tq_start q) /\
+            (e = BadParam \/ e = UnsupportedClass (tq_class q)).
+Proof. exact rrset_refused_sends_nothing. Qed.
